@@ -66,6 +66,8 @@ def run_case(V, case):
         # how the transport treats an exception escaping the receive callback alternates between the
         # two behaviours real transports have (see wire.WireStack._fatal_error)
         ws.transport_errors = "close" if (case.get("at") or 0) % 2 else "log"
+        if case.get("cancel_first") or ((case.get("at") or 0) // 2) % 2:
+            ws.ncp.think_time = 0.004  # commands spend some time "sent, waiting for the response"
         ws.install_serial()
         phase = ["bringup"]
         state = {"registered": False, "closed": False, "failed": False, "ez": None, "tasks": {}}
@@ -103,15 +105,34 @@ def run_case(V, case):
             info["closed_at_failure"] = state["closed"]
             info["timers_at_failure"] = loop.pending_host_timers()
             info["open_at_failure"] = [k for k, c in info["calls"].items() if c.get("end") is None]
-            if case.get("cancel_first"):
-                # the caller of the command that is in flight right now is cancelled, and the failure is
-                # processed before the cancelled task has run its clean-up (same loop iteration)
+            def cancel_inflight_caller():
                 for nm_, tk_ in list(state["tasks"].items()):
                     if not tk_.done():
                         trace.append(("cancel_caller", clock(), nm_))
                         tk_.cancel()
                         info["cancelled_caller"] = nm_
                         break
+
+            if case.get("cancel_first") and kind in ("error", "rstack") and ws.protocol is not None and not ws.transport._closing:
+                # Some task gives up on the command that is in flight (its caller is cancelled) and, later in
+                # the SAME loop iteration, the serial read callback delivers the failure frame: the failure
+                # is processed before the cancelled task has run its clean-up.
+                cancel_inflight_caller()
+                trace.append(("inject", clock(), kind, case.get("code"), "same-iteration"))
+                if kind == "error":
+                    ws.ash.failed = True
+                    wire_bytes = R.encode_error(case["code"])
+                else:
+                    for t_ in (ws.ash._timer, ws.ash._ack_timer):
+                        if t_ is not None:
+                            t_.cancel()
+                    ws.ash._reset_state()
+                    ws.ash.connected, ws.ash.failed = True, False
+                    ws.ncp.reset()
+                    wire_bytes = R.encode_rstack(case["code"])
+                trace.append(("line", clock(), "n2h", R.split_wire(wire_bytes)[0][0][1].sig(), "ok", False))
+                ws.line._deliver("n2h", wire_bytes)
+                return
             trace.append(("inject", clock(), kind, case.get("code")))
             if kind in ("error", "rstack"):
                 ws.silent = False  # the failure frame itself must get through
@@ -129,6 +150,10 @@ def run_case(V, case):
                 ws.lose_connection("error")
             elif kind == "eof":
                 ws.lose_connection("eof")
+            if case.get("cancel_first") and kind in ("lost", "eof"):
+                # the loss was noticed in this iteration's I/O phase (connection_lost is queued); a handle
+                # later in the same iteration cancels the caller: next iteration runs connection_lost first
+                cancel_inflight_caller()
 
         def on_frame(idx):
             if idx == case.get("at") and not state["failed"]:
@@ -405,7 +430,8 @@ def run_shard(desc) -> Acc:
     # ... and with the in-flight command's caller cancelled in the very iteration of the failure
     if desc["kind"] in ("error", "rstack", "lost", "eof"):
         for i in range(0, n + 1, 1 if desc["tier"] == "thorough" else 2):
-            cases.append({"kind": desc["kind"], "code": desc["code"], "at": i, "offset": 0.0015, "cancel_first": True})
+            for off in (0.0015, 0.0035):
+                cases.append({"kind": desc["kind"], "code": desc["code"], "at": i, "offset": off, "cancel_first": True})
     for case in cases:
         acc.case()
         trace, info = run_case(V, case)
